@@ -53,7 +53,8 @@ package biscuit
 //@ loop 0 invariant len(blocks) == len(b.blocks) + 1 && fresh(arr(blocks)) && fresh(authority) && wfBlock(authority)
 //@ ensures no_token_on_error: err != nil ==> res == nil
 //@ ensures refuses_sealed: !hasNextSecret(b.container.Proof) ==> err != nil
-//@ ensures wf: err == nil ==> wfToken(res) && len(res.blocks) == len(b.blocks) + 1
+//@ ensures wf_blocks: err == nil ==> res != nil && wfBlock(res.authority) && res.symbols != nil && len(res.blocks) == len(b.blocks) + 1 && (forall i int :: { res.blocks[i] } 0 <= i && i < len(res.blocks) ==> wfBlock(res.blocks[i]))
+//@ ensures wf_envelope: err == nil ==> wfContainer(res.container) && len(res.blocks) == len(res.container.Blocks)
 //@ ensures keyid[C16]: err == nil ==> optEq(res.container.RootKeyId, b.container.RootKeyId)
 //@ ensures envelope_prefix: err == nil ==> res.container.Authority == b.container.Authority && len(res.container.Blocks) == len(b.container.Blocks) + 1 && (forall i int :: { res.container.Blocks[i] } 0 <= i && i < len(b.container.Blocks) ==> res.container.Blocks[i] == b.container.Blocks[i])
 //@ ensures next_key: err == nil ==> hasNextSecret(res.container.Proof) && len(nextSecret(res.container.Proof)) == 32 && len(res.container.Blocks[len(b.container.Blocks)].NextKey.Key) == 32 && bview(res.container.Blocks[len(b.container.Blocks)].NextKey.Key) == pubOfPriv(privOfSeed(bview(nextSecret(res.container.Proof))))
@@ -164,7 +165,8 @@ package biscuit
 //@ loop 0 invariant forall j int :: { b.container.Blocks[j] } 0 <= j && j < #i ==> link(keyBefore(b.container, j), b.container.Blocks[j])
 //@ loop 0 invariant link(bview(root), b.container.Authority)
 //@ ensures no_authorizer_on_error: err != nil ==> res == nil
-//@ ensures accept_implies_chain[C01 C09]: err == nil ==> chainOK(b.container, bview(root)) && proofOK(b.container)
+//@ ensures accept_implies_chain[C01 C09]: err == nil ==> chainOK(b.container, bview(root))
+//@ ensures accept_implies_proof[C01 C09]: err == nil ==> proofOK(b.container)
 //@ ensures chain_implies_accept[C01 C09]: chainOK(b.container, bview(root)) && proofOK(b.container) ==> err == nil && res != nil
 //@ ensures passes_options[C11]: err == nil ==> limitsOf(res) == optLimits(opts)
 //@ ensures wf: err == nil ==> res is *authorizer && authWF(res.(*authorizer)) && res.(*authorizer).biscuit == b
@@ -576,7 +578,7 @@ package biscuit
 //@ ensures res == v.biscuit
 
 //@ func (v *authorizer) Authorize() (err error)
-//@ serves C03 C04 C10 C11 C13
+//@ serves C03 C04 C08 C10 C11 C13 C19
 //@ requires authInv(v)
 //@ modifies v.dirty, *v.world.facts, spare(*v.world.facts), v.world.rules, spare(v.world.rules), *v.symbols, spare(*v.symbols), v.block_worlds, spare(v.block_worlds)
 //@ loop 0 modifies *v.world.facts, spare(*v.world.facts), *v.symbols, spare(*v.symbols)
@@ -705,7 +707,7 @@ package biscuit
 //@ ensures within_limits[C11]: err == nil ==> len(*v.world.facts) < v.world.runLimits.maxFacts
 
 //@ func (v *authorizer) Query(rule Rule) (res FactSet, err error)
-//@ serves C03 C10 C11 C13
+//@ serves C03 C08 C10 C11 C13 C19
 //@ requires authInv(v) && bRuleWF(rule)
 //@ modifies v.dirty, *v.world.facts, spare(*v.world.facts), *v.symbols, spare(*v.symbols)
 //@ loop 0 invariant len(result) == #i && cap(result) == len(*facts) && fresh(arr(result)) && factsWF(*facts)
@@ -918,3 +920,34 @@ package biscuit
 //@ ensures wf_checks: checksWF(res.checks)
 //@ ensures content[C07]: len(*res.facts) == len(*b.facts) && (forall j int :: { (*res.facts)[j] } 0 <= j && j < len(*res.facts) ==> (*res.facts)[j] == (*b.facts)[j]) && len(res.rules) == len(b.rules) && len(res.checks) == len(b.checks) && res.context == b.context && res.version == 3
 //@ ensures new_symbols_only[C07]: len(*res.symbols) == old(len(*b.symbols)) - b.symbolsStart && (forall j int :: { (*res.symbols)[j] } 0 <= j && j < len(*res.symbols) ==> (*res.symbols)[j] == old((*b.symbols)[b.symbolsStart + j]))
+
+// ---------------------------------------------------------------------------
+// printing a token (read-only: C08 C19; never panics on decoded content: C10)
+
+//@ func (b *Block) Code(symbols *datalog.SymbolTable) (res string)
+//@ serves C08 C10 C19
+//@ requires blockWF(b) && symbols != nil
+//@ modifies nothing
+//@ loop 0 invariant debug != nil && debug.SymbolTable == symbols && len(facts) == len(*b.facts) && fresh(arr(facts))
+//@ loop 1 invariant debug != nil && debug.SymbolTable == symbols && len(rules) == len(b.rules) && fresh(arr(rules))
+//@ loop 2 invariant debug != nil && debug.SymbolTable == symbols && len(checks) == len(b.checks) && fresh(arr(checks))
+
+//@ func (b *Block) String(symbols *datalog.SymbolTable) (res string)
+//@ serves C08 C10 C19
+//@ requires blockWF(b) && symbols != nil
+//@ modifies nothing
+//@ loop 0 invariant debug != nil && debug.SymbolTable == symbols && len(rules) == len(b.rules) && fresh(arr(rules))
+//@ loop 1 invariant debug != nil && debug.SymbolTable == symbols && len(checks) == len(b.checks) && fresh(arr(checks))
+
+//@ func (b *Biscuit) String() (res string)
+//@ serves C08 C10 C19
+//@ requires contentWF(b)
+//@ modifies nothing
+//@ loop 0 invariant len(blocks) == len(b.blocks) && fresh(arr(blocks))
+
+//@ func (b *Biscuit) Code() (res []string)
+//@ serves C08 C10 C19
+//@ requires contentWF(b)
+//@ modifies nothing
+//@ loop 0 invariant len(blocks) == len(b.blocks) && fresh(arr(blocks))
+//@ ensures len(res) == len(b.blocks)
